@@ -394,7 +394,7 @@ class Call2Mixin:
   # ---- spec special forms --------------------------------------------------------------------------
   def sf_old(self, node, env):
     if self.old_env is None:
-      raise Unsupported('old() without a pre-state')
+      return self.ev(node.args[0], env)      # evaluated in a pre-state already (call-site precondition)
     saved, self.old_env = self.old_env, None
     try:
       e = dict(saved)
@@ -463,7 +463,8 @@ class Call2Mixin:
     return z3.Or(res) if len(res) > 1 else res[0]
 
   def isinstance1(self, v, c):
-    cname = c.name if isinstance(c, VClass) else (c.name if isinstance(c, VFn) else None)
+    cname = c.name if isinstance(c, VClass) else (c.name if isinstance(c, VFn) else (
+        c.name.split('.')[-1] if isinstance(c, VModule) else None))
     if isinstance(v, VOpt):
       return z3.And(z3.Not(v.isnone), self.isinstance1(v.val, c))
     if cname == 'int':
